@@ -807,6 +807,14 @@ def c15(ctx):
               "kind": "ahead", "special": True},
              {"t": "SCN", "C": [E(1, "ref", "main"), E(2, "ref", "main")], "L": [E(3, "ref", "main", t=1), E(4, "ref", "feat")],
               "R": [E(5, "ann", tg=[2], skip=True)], "kind": "replayed", "special": True}]
+    # the two faces of the recorded finding F-C15-1 are replayed in every run (push: a local-only propagation entry is published
+    # without its reference; fetch: the reference is moved to an older reference entry although a propagation entry is newer)
+    fixed += [{"t": "SCN", "op": "sync", "lref": {"main": "behind", "feat": "behind"},
+               "C": [E(1, "prop", "feat"), E(2, "ref", "main")], "L": [E(3, "ref", "feat"), E(4, "prop", "feat"), E(5, "ann", tg=[3], skip=True)],
+               "R": [], "kind": "ahead", "special": True},
+              {"t": "SCN", "op": "syncow", "lref": {"main": "equal", "feat": "behind"},
+               "C": [E(1, "ref", "feat"), E(2, "ref", "main")], "L": [], "R": [E(4, "ref", "feat"), E(5, "prop", "feat")],
+               "kind": "ff", "special": True}]
     scns = fixed + special[:20 if q else 250] + rest[:40 if q else 350]
     scn_path = os.path.join(ctx.scratch, "scn.ndjson")
     write_ndjson(scn_path, scns)
